@@ -13,6 +13,8 @@ pub mod pre {
     pub trait Buf: Sized {
         spec fn bytes(&self) -> Seq<u8>;
         fn remaining(&self) -> (r: usize) ensures r == self.bytes().len();
+        /// `has_remaining()`: `remaining() > 0` (bytes::Buf's provided method).
+        fn has_remaining(&self) -> (r: bool) ensures r == (self.bytes().len() > 0);
     }
     /// The entity's Data type: `Buf + From<Vec<u8>> + From<&'static [u8]>` as in the real bounds.  Assumed (it is
     /// the quantified input "an entity that honours its contract"): both conversions preserve the bytes.
